@@ -86,6 +86,22 @@ func NewTCPAllocation(config *AllocationConfig) *TCPAllocation {
 
 // Connect sends a Connect request to the turn server and returns a chosen connection ID.
 func (a *TCPAllocation) Connect(peer net.Addr) (proto.ConnectionID, error) {
+	var (
+		cid proto.ConnectionID
+		err error
+	)
+	// A stale nonce (438) is answered with a fresh one: try again with it, as the other
+	// requests of an allocation do.
+	for range maxRetryAttempts {
+		if cid, err = a.connect(peer); !errors.Is(err, errTryAgain) {
+			break
+		}
+	}
+
+	return cid, err
+}
+
+func (a *TCPAllocation) connect(peer net.Addr) (proto.ConnectionID, error) {
 	setters := []stun.Setter{
 		stun.TransactionID,
 		stun.NewType(stun.MethodConnect, stun.ClassRequest),
@@ -113,6 +129,12 @@ func (a *TCPAllocation) Connect(peer net.Addr) (proto.ConnectionID, error) {
 	if res.Type.Class == stun.ClassErrorResponse {
 		var code stun.ErrorCodeAttribute
 		if err = code.GetFrom(res); err == nil {
+			if code.Code == stun.CodeStaleNonce {
+				a.setNonceFromMsg(res)
+
+				return 0, errTryAgain
+			}
+
 			return 0, fmt.Errorf("%s (error %s)", res.Type, code) //nolint // dynamic errors
 		}
 
@@ -240,7 +262,20 @@ func (a *TCPAllocation) DialTCPWithConn(conn net.Conn, _ string, rAddr *net.TCPA
 }
 
 // BindConnection associates the provided connection.
-func (a *TCPAllocation) BindConnection(dataConn *TCPConn, cid proto.ConnectionID) error { //nolint:cyclop
+func (a *TCPAllocation) BindConnection(dataConn *TCPConn, cid proto.ConnectionID) error {
+	var err error
+	// A stale nonce (438) is answered with a fresh one, and the data connection stays usable:
+	// try again with it, as the other requests of an allocation do.
+	for range maxRetryAttempts {
+		if err = a.bindConnection(dataConn, cid); !errors.Is(err, errTryAgain) {
+			break
+		}
+	}
+
+	return err
+}
+
+func (a *TCPAllocation) bindConnection(dataConn *TCPConn, cid proto.ConnectionID) error { //nolint:cyclop
 	msg, err := stun.Build(
 		stun.TransactionID,
 		stun.NewType(stun.MethodConnectionBind, stun.ClassRequest),
@@ -297,6 +332,12 @@ func (a *TCPAllocation) BindConnection(dataConn *TCPConn, cid proto.ConnectionID
 	case stun.ClassErrorResponse:
 		var code stun.ErrorCodeAttribute
 		if err = code.GetFrom(res); err == nil {
+			if code.Code == stun.CodeStaleNonce {
+				a.setNonceFromMsg(res)
+
+				return errTryAgain
+			}
+
 			return fmt.Errorf("%s (error %s)", res.Type, code) //nolint // dynamic errors
 		}
 
